@@ -32,7 +32,7 @@ Oracle rules (violation classes):
                           (these two come from the documented gate in request_player_add, not from the statement sentence)
   current_player          game.player is the player of the running turn (checked when an extra ball is awarded)
   crash                   no exception reaches the event loop (on_crash)
-Relaxations (statement leaves it open -> both accepted): R-aborted-start, R-end-before-first-turn, R-turn-without-ball,
+Relaxations (statement leaves it open -> both accepted): R-end-before-first-turn, R-turn-without-ball,
 R-extra-after-end, R-roster-in-progress, R-requests-while-ending, R-add-in-flight; an end request that arrives while no
 ball is open is neither required nor allowed to end the *next* ball.
 """
@@ -57,7 +57,7 @@ PROBES = ["game_completed", "second_game", "op_inside_hold", "add_inside_hold", 
           "extra_ball_played", "save_used", "bip_capped", "overdrain_clamped", "add_refused_after_ball1",
           "late_player_joined", "add_denied", "end_game_during_start", "slam_during_game", "tilt_during_ball",
           "four_players", "restart_after_end", "playfield_wait", "sync_handler_op", "multiball_drained",
-          "end_game_midgame", "natural_game_end_multi_player", "hop_op", "award_in_ball_end_handler",
+          "end_game_midgame", "natural_game_end_multi_player", "hop_op", "award_in_ball_end_handler", "end_game_before_first_player",
           "hold_mode_summary_stopping", "game_end_waits_for_stopping_mode",
           "hold_game_starting", "hold_player_adding", "hold_player_turn_starting", "hold_ball_starting",
           "hold_ball_ending", "hold_player_turn_ending", "hold_game_ending"]
@@ -148,6 +148,11 @@ def plan(ch, tier):
         # devices (variant a) that combination has no physical meaning, so tilts only run with the counter off
         prof = [(k, 0 if k in ("tilt", "slam") else w) for k, w in prof]
     ops = [{"t": "op", "dt": ch.pick("dt0", [0.0, 0.1, 1.0]), "do": {"a": ch.pick("start_how", ["btn", "start_ev"])}}]
+    # guided: the first player's own player_add_request is denied, the game is ended while it waits for a player
+    if ch.flag("g_denied_first", 0.08):
+        ops.insert(0, {"t": "op", "dt": 0.0, "do": {"a": "deny"}})
+        ops.append({"t": "op", "dt": ch.pick("g_df_dt", [0.0, 0.01, 0.3]),
+                    "do": {"a": "end_game", "via": ch.pick("g_df_via", ["ev", "call"])}})
     # players join early in a good share of runs
     for _ in range(ch.pick("early_adds", [0, 0, 1, 1, 2, 3, 4])):
         ops.append({"t": "op", "dt": ch.pick("dta", [0.0, 0.001, 0.05, 0.3]), "do": {"a": ch.pick("add_how", ["btn", "add_ev"])}})
@@ -429,9 +434,11 @@ class Oracle:
         if ph == "idle":
             return {"game_will_start"}
         if ph == "game_starting":
-            # R-aborted-start: the statement does not say which events a game posts that was ended before it
-            # started; game_started may be skipped when end_game was requested before it.
-            return {"game_started", "game_will_end"} if self.end_game_req else {"game_started"}
+            # Statement: the game events 'will-start/starting/started and will-end/ending/ended are posted in exactly
+            # that nesting order'.  A game that is ended while it is starting (end_game inside a held game_starting /
+            # first player_adding, or after a denied first player_add_request) still closes its start bracket:
+            # game_started comes before game_will_end (it may have no player - see _on_game_started).
+            return {"game_started"}
         if ph == "game_started":
             # R-end-before-first-turn: an end / slam-tilt request that arrived before the first turn: the first
             # turn may or may not be played.
@@ -623,6 +630,8 @@ class Oracle:
             return
         if self.phase in ("game_will_start", "game_starting"):
             self.ctx.probe("end_game_during_start")
+            if self.roster_hi == 0:
+                self.ctx.probe("end_game_before_first_player")
         if self.phase not in ("game_will_end", "game_ending"):
             # R-requests-while-ending: requests arriving while the game is ending have no required effect
             self.end_game_req = True
